@@ -88,6 +88,29 @@ def run_check(pid, tier, seed, args):
     if args.dump_fails:
         with open(args.dump_fails, "w") as f:
             json.dump(res["fails"], f, default=str)
+    # thorough tier: the natural-order pass is repeated under other hash seeds (string-named inputs iterate
+    # differently); sub-processes, because PYTHONHASHSEED is fixed at interpreter start
+    extra_seeds = []
+    if tier == "thorough" and not args.policies and os.environ.get("VERIF_EXTRA_HASHSEEDS", "1,2"):
+        import subprocess
+        import tempfile
+        for hs in os.environ.get("VERIF_EXTRA_HASHSEEDS", "1,2").split(","):
+            with tempfile.NamedTemporaryFile(suffix=".json", dir="/dev/shm") as tf:
+                env = dict(os.environ, VERIF_HASHSEED=hs, PYTHONHASHSEED=hs)
+                cmd = [sys.executable, os.path.abspath(__file__), pid, "--tier", "quick", "--seed", str(seed),
+                       "--policies", "natural", "--no-evidence", "--dump-fails", tf.name]
+                subprocess.run(cmd, env=env, stdout=subprocess.DEVNULL, stderr=subprocess.DEVNULL, timeout=7200)
+                try:
+                    extra = json.load(open(tf.name))
+                except Exception:
+                    extra = None
+            if extra is None:
+                res["harness_errors"].append({"case": None, "error": "natural pass under PYTHONHASHSEED=%s did not finish" % hs})
+            else:
+                for f in extra:
+                    f["policies"] = ["%s#hashseed%s" % (p, hs) for p in f["policies"]]
+                res["fails"].extend(extra)
+                extra_seeds.append(int(hs))
     known = load_known()
     unlisted, attributed = [], {}
     for f in res["fails"]:
@@ -141,6 +164,7 @@ def run_check(pid, tier, seed, args):
             "violations_per_clause_layer": _count(unlisted),
             "known_finding_cases": {known[i]["id"]: len(v) for i, v in attributed.items()},
             "hashseed": os.environ.get("PYTHONHASHSEED"),
+            "extra_natural_passes_under_hashseeds": extra_seeds,
             "order_hook": dict(loader.STATS), "repo": loader.REPO,
             "bounds": getattr(prop, "BOUNDS", ""),
             "notes": res.get("notes", {}),
